@@ -5,9 +5,9 @@
     * `logScale d`           : the three normalising loops (×10^19, ×10^4, ×10) — value preserved, `sig ≥ 25·2^184`
     * `logReduce d msd`      : the optional division by the two leading digits `msd/10`
     * `logTerm sqr i s`      : one pass of the series loop  `frc ← frc·sqr; res ← res + frc/i`
-    * `logSeries d trunc`    : `num = d-1`, `den = d+1`, `frc = num/den`, `sqr = frc²`, twelve `logTerm`s (i = 3,5,…,25)
+    * `logSeries d trunc`    : `num = d-1`, `den = d+1`, `frc = num/den`, `sqr = frc²`, sixteen `logTerm`s (i = 3,5,…,33)
     * `logTail exp msd res t`: `2·res ± |exp|·ln10 ± ln(msd/10)`
-  and `log_eq : Gen.decomposed192.log d = …` composes them (proved by unfolding; the `while i <= 25` loop is
+  and `log_eq : Gen.decomposed192.log d = …` composes them (proved by unfolding; the `while i <= 33` loop is
   unrolled into `logIter`).
 -/
 import D128.Gen.Decomposed
@@ -63,7 +63,7 @@ def logSeries (d : decomposed192) (trunc : Int8) : Go.GoM (decomposed192 × Int8
   let a ← decomposed192.add1 d 0
   let f ← decomposed192.quo n.2.1 a.1 trunc
   let q ← decomposed192.pow2 f.1 0
-  let s ← logIter q.1 12 3 (f.2, f.1, f.1)
+  let s ← logIter q.1 16 3 (f.2, f.1, f.1)
   pure (s.2.2, s.1)
 
 /-- the end of `log`: `2·res ± |exp|·ln 10 ± ln(msd/10)` -/
@@ -98,23 +98,23 @@ theorem u64_succ2 (i : UInt64) (h : i.toNat + 2 < 2 ^ 64) : (i + 2).toNat = i.to
   have : (2 : UInt64).toNat = 2 := rfl
   rw [this]; omega
 
-/-- the generated `for i := 3; i <= 25; i += 2` loop is `logIter` -/
+/-- the generated `for i := 3; i <= 33; i += 2` loop is `logIter` -/
 theorem logLoop_eq {β : Type} (sqr : decomposed192)
     (K : Int8 × decomposed192 × decomposed192 × UInt64 → Go.GoM β) (n : Nat) :
-    ∀ (t : Int8) (frc res : decomposed192) (i : UInt64), i.toNat + 2 * n = 27 →
+    ∀ (t : Int8) (frc res : decomposed192) (i : UInt64), i.toNat + 2 * n = 35 →
     ((forIn (m := Go.GoM) Lean.Loop.mk (t, frc, res, i) fun x __s =>
-        if decide (__s.2.2.2 ≤ 25) = true then do
+        if decide (__s.2.2.2 ≤ 33) = true then do
           let __x ← decomposed192.mul __s.2.1 sqr 0
           let __x_1 ← decomposed192.quo __x.1 { sig := { w0 := __s.2.2.2, w1 := 0, w2 := 0 }, exp := 0 } 0
           let __x_2 ← decomposed192.add __s.2.2.1 __x_1.1 __s.1
           pure (ForInStep.yield (__x_2.2, __x.1, __x_2.1, __s.2.2.2 + 2))
         else pure (ForInStep.done (__s.1, __s.2.1, __s.2.2.1, __s.2.2.2))) >>= K)
-     = (logIter sqr n i (t, frc, res) >>= fun s => K (s.1, s.2.1, s.2.2, 27)) := by
+     = (logIter sqr n i (t, frc, res) >>= fun s => K (s.1, s.2.1, s.2.2, 35)) := by
   induction n with
   | zero =>
     intro t frc res i hi
     rw [Go.loop_unfold]
-    have h27 : i = 27 := by
+    have h27 : i = 35 := by
       apply UInt64.toNat_inj.mp; simpa using hi
     subst h27
     simp only [logIter]
@@ -122,7 +122,7 @@ theorem logLoop_eq {β : Type} (sqr : decomposed192)
   | succ n ih =>
     intro t frc res i hi
     rw [Go.loop_unfold]
-    have hle : i ≤ 25 := by rw [UInt64.le_iff_toNat_le]; have : (25 : UInt64).toNat = 25 := rfl; omega
+    have hle : i ≤ 33 := by rw [UInt64.le_iff_toNat_le]; have : (33 : UInt64).toNat = 33 := rfl; omega
     simp only [hle, decide_true, if_true, logIter, logTerm, small]
     simp only [bind_assoc, pure_bind]
     refine congrArg _ (funext fun x => ?_)
@@ -158,7 +158,7 @@ theorem log_eq (d : decomposed192) :
         let __x_3 ← __x.1.pow2 0
         let __s ←
           forIn (m := Go.GoM) Lean.Loop.mk (__x.2, __x.1, __x.1, (3 : UInt64)) fun x __s =>
-              if decide (__s.2.2.2 ≤ 25) = true then do
+              if decide (__s.2.2.2 ≤ 33) = true then do
                 let __x ← __s.2.1.mul __x_3.1 0
                 let __x_4 ← __x.1.quo { sig := { w0 := __s.2.2.2, w1 := 0, w2 := 0 }, exp := 0 } 0
                 let __x_5 ← __s.2.2.1.add __x_4.1 __s.1
@@ -172,7 +172,7 @@ theorem log_eq (d : decomposed192) :
         let __x_2 ← __x.1.pow2 0
         let __s ←
           forIn (m := Go.GoM) Lean.Loop.mk (__x.2, __x.1, __x.1, (3 : UInt64)) fun x __s =>
-              if decide (__s.2.2.2 ≤ 25) = true then do
+              if decide (__s.2.2.2 ≤ 33) = true then do
                 let __x ← __s.2.1.mul __x_2.1 0
                 let __x_3 ← __x.1.quo { sig := { w0 := __s.2.2.2, w1 := 0, w2 := 0 }, exp := 0 } 0
                 let __x_4 ← __s.2.2.1.add __x_3.1 __s.1
@@ -192,13 +192,13 @@ theorem log_eq (d : decomposed192) :
       refine congrArg _ (funext fun c => ?_)
       refine congrArg _ (funext fun e => ?_)
       refine congrArg _ (funext fun f => ?_)
-      exact logLoop_eq f.1 (fun __s => logTail (d.exp + Go.conv t) M __s.2.2.1 __s.1) 12 _ _ _ _ (by decide)
+      exact logLoop_eq f.1 (fun __s => logTail (d.exp + Go.conv t) M __s.2.2.1 __s.1) 16 _ _ _ _ (by decide)
     · simp only [h2, decide_false, Bool.false_eq_true, if_false, bind_assoc, pure_bind]
       refine congrArg _ (funext fun b => ?_)
       refine congrArg _ (funext fun c => ?_)
       refine congrArg _ (funext fun e => ?_)
       refine congrArg _ (funext fun f => ?_)
-      exact logLoop_eq f.1 (fun __s => logTail (d.exp + Go.conv t) M __s.2.2.1 __s.1) 12 _ _ _ _ (by decide)
+      exact logLoop_eq f.1 (fun __s => logTail (d.exp + Go.conv t) M __s.2.2.1 __s.1) 16 _ _ _ _ (by decide)
   by_cases h1 : m < 10
   · simp only [h1, decide_true, if_true]
     rw [← key (m * 10)]
